@@ -40,7 +40,7 @@ class ProgGen:
     """Per-thread program generator.  `profile` tunes the noise."""
 
     def __init__(self, world, rnd, ntids=3, pids=(11, 12, 13), noise=0.15, composites=True, strings=True,
-                 usestr=True, trc_windows=True, names=None, frag_safe=False):
+                 usestr=True, trc_windows=True, names=None, frag_safe=False, ood=0.0):
         self.w = world
         self.rnd = rnd
         self.ntids = ntids
@@ -55,6 +55,7 @@ class ProgGen:
         self.text_tag = 0
         self.rot = {}
         self.names = names
+        self.ood = ood                 # share of operations with an OUT-OF-DOMAIN argument (their decoder may raise)
         self.frag_safe = frag_safe     # never put trace-domain records between string chunks of a thread
 
     def pick(self, cls):
@@ -132,6 +133,11 @@ class ProgGen:
             parts.insert(rnd.randrange(0, len(parts) + 1), self.syscall(t, depth + 1))
         body = [e for p in parts for e in p]
         out = []
+        bad = self.ood and rnd.random() < self.ood
+        if bad:
+            # an operation one of whose arguments is outside the decoder's domain (unknown enum value): decoding it may
+            # fail at its END - the caller catches that and goes on; the records still belong to the enclosing windows
+            return [self.w.sys(name, 1, t, ood=True)] + body + [self.w.sys(name, 2, t, ood=True)]
         if rnd.random() >= self.noise:
             out.append(self.w.sys(name, 1, t))
             if rnd.random() < self.noise / 2:          # re-opened START
